@@ -7,6 +7,7 @@ import (
 	"hash/fnv"
 	"sort"
 	"strings"
+	"sync"
 	"testing"
 
 	leveldbstorage "github.com/spikeekips/mitum/storage/leveldb"
@@ -107,7 +108,12 @@ type script struct {
 	hp     [][]byte // prefix of handle
 	closed []bool
 	ops    []opRec
-	failed bool
+	// all handle prefixes are sub-slices of one caller-owned buffer (cap > len,
+	// neighbours adjacent): pbuf must never change
+	pbuf     []byte
+	pbufOrig []byte
+	poff     [][2]int // offset, length of handle i's prefix in pbuf
+	failed   bool
 }
 
 func q(b []byte) string { return fmt.Sprintf("%q", b) }
@@ -250,6 +256,8 @@ func runScript(r *vlib.Run, idx, nops int) {
 		}
 	}
 
+	s.layoutHandles(rng)
+
 	// seed
 	for j := 0; j < 12+rng.Intn(20); j++ {
 		h := rng.Intn(len(s.hs))
@@ -291,6 +299,11 @@ func runScript(r *vlib.Run, idx, nops int) {
 		if s.step(rng) {
 			nontrivial = true
 		}
+		s.after(s.ops[len(s.ops)-1].Op)
+		if o == nops/2 || o == nops-1 {
+			s.concurrentPhase(rng)
+			s.after("concurrent-batches")
+		}
 	}
 
 	h := fnv.New64a()
@@ -324,9 +337,80 @@ func (s *script) addHandle(p []byte) {
 			return
 		}
 	}
-	s.hs = append(s.hs, leveldbstorage.NewPrefixStorage(s.st, bytes.Clone(p)))
 	s.hp = append(s.hp, p)
 	s.closed = append(s.closed, false)
+}
+
+// prefix slice of handle i as the caller hands it to NewPrefixStorage: a
+// sub-slice of the shared buffer, capacity reaching to the end of the buffer
+func (s *script) sub(i int) []byte {
+	return s.pbuf[s.poff[i][0] : s.poff[i][0]+s.poff[i][1]]
+}
+
+func (s *script) layoutHandles(rng interface{ Intn(int) int }) {
+	for i, p := range s.hp {
+		if i > 0 && rng.Intn(3) == 0 { // gap between neighbours; otherwise adjacent
+			for j := 0; j < 1+rng.Intn(4); j++ {
+				s.pbuf = append(s.pbuf, 0xee)
+			}
+		}
+		s.poff = append(s.poff, [2]int{len(s.pbuf), len(p)})
+		s.pbuf = append(s.pbuf, p...)
+	}
+	for j := 0; j < 24; j++ { // slack after the last prefix
+		s.pbuf = append(s.pbuf, 0xee)
+	}
+	s.pbuf = s.pbuf[:len(s.pbuf):len(s.pbuf)]
+	s.pbufOrig = bytes.Clone(s.pbuf)
+	for i := range s.hp {
+		s.hs = append(s.hs, leveldbstorage.NewPrefixStorage(s.st, s.sub(i)))
+	}
+}
+
+// after every op: the caller's prefix buffer is untouched and every open
+// handle shows exactly the model's keys under its prefix
+func (s *script) after(op string) {
+	if s.failed {
+		return
+	}
+	if !bytes.Equal(s.pbuf, s.pbufOrig) {
+		at := firstDiffAt(s.pbuf, s.pbufOrig)
+		s.violation("handles:caller-prefix-buffer-modified-after:"+op, fmt.Sprintf("the buffer the handle prefixes were cut from changed at offset %d: was %x now %x", at, s.pbufOrig, s.pbuf))
+		return
+	}
+	for i, pst := range s.hs {
+		if s.closed[i] {
+			continue
+		}
+		var got []kv
+		err := pst.Iter(nil, func(k, v []byte) (bool, error) {
+			got = append(got, kv{K: k, V: v})
+			return true, nil
+		}, true)
+		if err != nil {
+			s.violation("handles:view-error-after:"+op, fmt.Sprintf("handle %q: %v", s.hp[i], err))
+			return
+		}
+		want := s.m.visible(s.hp[i], nil, nil, true)
+		ok := len(got) == len(want)
+		for j := 0; ok && j < len(got); j++ {
+			ok = bytes.Equal(got[j].K, want[j].K) && bytes.Equal(got[j].V, want[j].V)
+		}
+		if !ok {
+			s.violation("handles:view-differs-from-model-after:"+op, fmt.Sprintf("handle %q shows %s, model %s", s.hp[i], kvs(got), kvs(want)))
+			return
+		}
+	}
+	s.r.Count("all_handle_views_checked", 1)
+}
+
+func firstDiffAt(a, b []byte) int {
+	for i := 0; i < len(a) && i < len(b); i++ {
+		if a[i] != b[i] {
+			return i
+		}
+	}
+	return min(len(a), len(b))
 }
 
 // a raw key just outside (or inside) some handle's prefix range
@@ -819,7 +903,7 @@ func (s *script) closedOp(rng interface{ Intn(int) int }, h int) {
 			b.Put(randKey(rng, false), randVal(rng))
 			_ = pst.Batch(b, nil)
 		default:
-			s.hs[h] = leveldbstorage.NewPrefixStorage(s.st, bytes.Clone(p))
+			s.hs[h] = leveldbstorage.NewPrefixStorage(s.st, s.sub(h))
 			s.closed[h] = false
 		}
 	})
@@ -859,4 +943,158 @@ func (s *script) closedOp(rng interface{ Intn(int) int }, h int) {
 		}
 	}
 	s.compare("closed-handle:"+name, p, false)
+}
+
+// concurrent phase: 2-8 goroutines fill separate batches (NewBatch+Batch or
+// BatchFunc) through the same and through different handles and commit them.
+// Every goroutine writes only full keys that end in its own tag byte and
+// deletes only existing keys assigned to it, so the final contents do not
+// depend on the schedule; only the contents at quiescence are judged.
+type cop struct {
+	del  bool
+	k, v []byte
+}
+
+func (s *script) concurrentPhase(rng interface{ Intn(int) int }) {
+	if s.failed {
+		return
+	}
+	r := s.r
+	var open []int
+	for i := range s.hs {
+		if !s.closed[i] {
+			open = append(open, i)
+		}
+	}
+	if len(open) == 0 {
+		return
+	}
+	g := 2 + rng.Intn(7)
+	type job struct {
+		h       int
+		viaFunc bool
+		bsize   uint64
+		rounds  [][]cop
+	}
+	jobs := make([]job, g)
+	same := open[rng.Intn(len(open))]
+	mode := rng.Intn(3) // 0: all through one handle, 1: all different/random, 2: mixed
+	existing := s.m.sortedKeys()
+	for i := range jobs {
+		j := &jobs[i]
+		switch {
+		case mode == 0, mode == 2 && i%2 == 0:
+			j.h = same
+		default:
+			j.h = open[rng.Intn(len(open))]
+		}
+		j.viaFunc = rng.Intn(2) == 0
+		j.bsize = uint64(1 + rng.Intn(4))
+		p := s.hp[j.h]
+		tag := byte(0xa0 + i)
+		var mine [][]byte
+		for rd := 0; rd < 1+rng.Intn(3); rd++ {
+			var ops []cop
+			for x := 0; x < 2+rng.Intn(8); x++ {
+				switch y := rng.Intn(10); {
+				case y < 2 && len(mine) > 0 && !j.viaFunc:
+					ops = append(ops, cop{del: true, k: mine[rng.Intn(len(mine))]})
+				case y < 3 && len(existing) > 0 && !j.viaFunc:
+					// an existing key under this handle's prefix that is assigned to goroutine i
+					fk := existing[rng.Intn(len(existing))]
+					if strings.HasPrefix(fk, string(p)) && len(fk) > len(p) && int(fk[len(fk)-1])%g == i && fk[len(fk)-1] < 0xa0 {
+						ops = append(ops, cop{del: true, k: []byte(fk[len(p):])})
+						break
+					}
+					fallthrough
+				default:
+					k := append(randKey(rng, true), tag)
+					mine = append(mine, k)
+					ops = append(ops, cop{k: k, v: randVal(rng)})
+				}
+			}
+			j.rounds = append(j.rounds, ops)
+		}
+	}
+	desc := fmt.Sprintf("goroutines=%d handle-mode=%d", g, mode)
+	s.rec("concurrent-batches", nil, desc)
+
+	var wg sync.WaitGroup
+	var mu sync.Mutex
+	var problems []string
+	for i := range jobs {
+		wg.Add(1)
+		go func(j job) {
+			defer wg.Done()
+			defer func() {
+				if e := recover(); e != nil {
+					mu.Lock()
+					problems = append(problems, fmt.Sprintf("panic: %v", e))
+					mu.Unlock()
+				}
+			}()
+			pst := s.hs[j.h]
+			fail := func(err error) {
+				mu.Lock()
+				problems = append(problems, err.Error())
+				mu.Unlock()
+			}
+			if j.viaFunc {
+				add, done, cancel := pst.BatchFunc(context.Background(), j.bsize, nil)
+				defer cancel()
+				do := func(f func() error) error { return f() }
+				for _, ops := range j.rounds {
+					for _, o := range ops {
+						o := o
+						if err := add(func(b leveldbstorage.LeveldbBatch) { b.Put(o.k, o.v) }, do); err != nil {
+							fail(err)
+							return
+						}
+					}
+				}
+				if err := done(do); err != nil {
+					fail(err)
+				}
+				return
+			}
+			for _, ops := range j.rounds {
+				b := pst.NewBatch()
+				for _, o := range ops {
+					if o.del {
+						b.Delete(o.k)
+					} else {
+						b.Put(o.k, o.v)
+					}
+				}
+				if err := pst.Batch(b, nil); err != nil {
+					fail(err)
+					return
+				}
+			}
+		}(jobs[i])
+	}
+	wg.Wait()
+	if len(problems) > 0 {
+		sort.Strings(problems)
+		s.violation("concurrent-batches:error-or-panic", fmt.Sprintf("%v", head(problems)))
+		return
+	}
+	nrec := 0
+	for _, j := range jobs {
+		p := string(s.hp[j.h])
+		for _, ops := range j.rounds {
+			for _, o := range ops {
+				nrec++
+				if o.del {
+					delete(s.m, p+string(o.k))
+				} else {
+					s.m[p+string(o.k)] = o.v
+				}
+			}
+		}
+	}
+	r.Count("concurrent_phases", 1)
+	r.Count("concurrent_goroutines", g)
+	r.Count("concurrent_batch_records", nrec)
+	s.compare("concurrent-batches", nil, true)
 }
